@@ -135,7 +135,8 @@ let root_sizes () (c : cfg) : (int * int) list =
       (f, f + n))
 
 (* emits one case; returns (number of ops applied, op kinds) *)
-let gen_case (c : cfg) (id : string) (prog : Buffer.t) (obs : Buffer.t) : string list =
+let gen_case ?(with_probes = true) ?(tail = fun (_ : string) (_ : view) (_ : Buffer.t) (_ : Buffer.t) -> ([] : string list))
+    (c : cfg) (id : string) (prog : Buffer.t) (obs : Buffer.t) : string list =
   let exts = root_sizes () c in
   let pr b s = Buffer.add_string b s; Buffer.add_char b '\n' in
   pr prog ("case " ^ id);
@@ -143,7 +144,7 @@ let gen_case (c : cfg) (id : string) (prog : Buffer.t) (obs : Buffer.t) : string
   let v0 = root_view (List.map (fun (f, l) -> (z f, z l)) exts) in
   let nroot = i (l_num_elements v0.lay) in
   let emit_probes step v =
-    List.iter (fun idx -> pr prog ("probe " ^ join " " string_of_int idx); pr obs (probe_line id step v nroot idx)) (probes v) in
+    if with_probes then List.iter (fun idx -> pr prog ("probe " ^ join " " string_of_int idx); pr obs (probe_line id step v nroot idx)) (probes v) in
   pr obs (shape_line id 0 v0);
   emit_probes 0 v0;
   let nops = rnd_range 0 c.maxops in
@@ -164,9 +165,10 @@ let gen_case (c : cfg) (id : string) (prog : Buffer.t) (obs : Buffer.t) : string
         pr obs (shape_line id !step !v);
         emit_probes !step !v
   done;
+  let extra_kinds = tail id !v prog obs in
   pr prog "end";
   pr obs ("E " ^ id);
-  List.rev !kinds
+  List.rev !kinds @ extra_kinds
 
 (* ---- running a given program text (replay, shrinking, corpus) ---- *)
 let parse_op (toks : string list) : op =
@@ -203,13 +205,14 @@ let words s = List.filter (fun w -> w <> "") (String.split_on_char ' ' (String.t
 
 (* runs every case of a program text through the model; an out-of-domain op prints an X line and
    ends the case (the harness is not expected to agree on it) *)
-let run_text (text : string) (obs : Buffer.t) : unit =
+let run_text ?(extra = fun (_ : string) (_ : view) (_ : string list list) (_ : Buffer.t) -> ()) (text : string) (obs : Buffer.t) : unit =
   let pr s = Buffer.add_string obs s; Buffer.add_char obs '\n' in
   let id = ref "" and v = ref (root_view []) and nroot = ref 0 and step = ref 0 and dead = ref false in
+  let pending = ref [] in
   List.iter
     (fun line ->
       match words line with
-      | [ "case"; c ] -> id := c; step := 0; dead := false
+      | [ "case"; c ] -> id := c; step := 0; dead := false; pending := []
       | "root" :: _d :: rest ->
           let rec pairs = function a :: b :: t -> (z (int_of_string a), z (int_of_string b)) :: pairs t | _ -> [] in
           v := root_view (pairs rest);
@@ -226,6 +229,7 @@ let run_text (text : string) (obs : Buffer.t) : unit =
           if List.length idx = List.length exts && List.for_all2 (fun k (f, l) -> f <= k && k < l) idx exts
           then pr (probe_line !id !step !v !nroot idx)
           else pr (Printf.sprintf "P %s %d idx=%s invalid" !id !step (ints idx))
-      | [ "end" ] -> pr ("E " ^ !id)
-      | _ -> ())
+      | [ "end" ] -> if not !dead then extra !id !v (List.rev !pending) obs; pr ("E " ^ !id)
+      | [] -> ()
+      | toks -> if not !dead then pending := toks :: !pending)
     (String.split_on_char '\n' text)
